@@ -256,7 +256,8 @@ def tz_only(ctx, parser, tz, rng):
         secs = rng.choice([-1, 1]) * (rng.choice([0, 0, 23, rng.randint(0, 23)]) * 3600 + rng.choice([0, 1, 59, rng.randint(0, 59)]) * 60)
     text = render_iso.render_offset(form, secs)
     ctx.count('form_tzonly_' + form)
-    for zero_as_utc in (True, False, None):
+    orders = [(True, False, None), (False, True, None), (None, False, True), (False, None, True)]
+    for zero_as_utc in orders[ctx.evaluations % 4]:          # the same parser object is asked in varying orders
         for kind, arg in as_inputs(text):
             ctx.ev()
             f = parser.parse_tzstr if zero_as_utc is None else (lambda a: parser.parse_tzstr(a, zero_as_utc=zero_as_utc))
@@ -273,6 +274,8 @@ def tz_only(ctx, parser, tz, rng):
                 bad.append('zero offset not UTC: %r' % (v,))
             elif form in ('Z', 'z') and not isinstance(v, tz.tzutc):
                 bad.append('Z not UTC: %r' % (v,))
+            elif secs == 0 and zero_as_utc is False and form not in ('Z', 'z') and isinstance(v, tz.tzutc):
+                bad.append('zero_as_utc=False returned tz.UTC for a numeric zero offset (whatever the parser was asked before)')
             if bad:
                 ctx.violation('round-trip', case, '; '.join(bad))
     ctx.distinct('tz|%s|%s' % (form, 'zero' if secs == 0 else ('neg' if secs < 0 else 'pos')))
